@@ -822,15 +822,13 @@ class DistributedShampoo(torch.optim.Optimizer):
         use_bias_correction: bool,
     ) -> tuple[torch.Tensor, ...]:
         if beta1 != 0.0:
-            # Computes filtered gradient or EMA of the gradients with respect to beta3 if beta3 != beta1.
-            masked_filtered_grad_list = (
-                torch._foreach_lerp(
-                    state_lists[MASKED_FILTERED_GRAD_LIST],
-                    state_lists[MASKED_BLOCKED_GRADS],
-                    weight=1 - beta3,
-                )
-                if beta3 != beta1
-                else state_lists[MASKED_FILTERED_GRAD_LIST]
+            # Computes filtered gradient or EMA of the gradients with respect to beta3.
+            # NOTE: This is always computed out-of-place (even if beta3 == beta1) because the result is
+            # modified in-place downstream and must not alias the filtered gradient optimizer state.
+            masked_filtered_grad_list = torch._foreach_lerp(
+                state_lists[MASKED_FILTERED_GRAD_LIST],
+                state_lists[MASKED_BLOCKED_GRADS],
+                weight=1 - beta3,
             )
 
             # Update EMA of the gradients (with respect to beta1).
